@@ -308,7 +308,7 @@ func shrink(s Script, kind string) Script {
 		}
 		for i := range impl {
 			// a candidate that broke the script's own set-up is not a smaller failing case
-			if impl[i] == "bad-op" || model[0][i] == "bad-op" || (impl[i] == "err panic" && strings.Contains(lastPanic, "nil pointer")) {
+			if impl[i] == "bad-op" || model[0][i] == "bad-op" || strings.Contains(impl[i], "mismatch") || (impl[i] == "err panic" && strings.Contains(lastPanic, "nil pointer")) {
 				return false
 			}
 		}
